@@ -12,7 +12,7 @@ for p in $ids; do
   t1=$(date +%s)
   echo "$p rc=$rc wall=$((t1-t0))s viol=$(grep -c '^VIOLATION' .work/regen_$p.log) known=$(grep -c '^KNOWN-FINDING' .work/regen_$p.log)"
   [ $rc -eq 0 ] || bad=1
-  python3-vt -c "import json,jsonschema,sys;jsonschema.validate(json.load(open('evidence/$p.json')),json.load(open('/root/.vp/EVIDENCE.schema.json')))" || { echo "evidence/$p.json INVALID"; bad=1; }
+  python3-vt -c "import json,jsonschema,sys;jsonschema.validate(json.load(open(('evidence_extensions' if '$p'.startswith('X') else 'evidence') + '/$p.json')),json.load(open('/root/.vp/EVIDENCE.schema.json')))" || { echo "evidence/$p.json INVALID"; bad=1; }
 done
 python3 tools/manifest.py || bad=1
 exit $bad
